@@ -655,6 +655,18 @@ class Models:
                     return ok(st, VStr(so.repl_ud(recv.t)))
                 if (a, b) == ('-', '_'):
                     return ok(st, VStr(so.repl_du(recv.t)))
+            if name == 'join' and args and isinstance(
+                    args[0], (VTuple, VListC)) and all(
+                    isinstance(x, VStr) for x in args[0].items):
+                parts = []
+                for k, x in enumerate(args[0].items):
+                    if k:
+                        parts.append(recv.t)
+                    parts.append(x.t)
+                if not parts:
+                    return ok(st, VStr(''))
+                return ok(st, VStr(parts[0] if len(parts) == 1
+                                   else z3.Concat(*parts)))
             if name == 'join':
                 return ok(st, VStr(fresh('joined', so.S)))
         if isinstance(recv, VNodeValue):
